@@ -15,7 +15,7 @@ func init() {
 		Run: runC13,
 		Explanation: "Static analysis of coinomics minting: (R1) only Keeper.MintCoins mints for the coinomics account, only MintAndAllocate calls it, only EndBlocker calls MintAndAllocate; (R2) EndBlocker reaches MintAndAllocate only while EnableCoinomics is set; on the first block after activation (previous timestamp zero) nothing is minted and the timestamp is recorded; every path that mints sends exactly the minted coin from the coinomics account to the fee collector and records the block timestamp; the amount depends on bonded tokens, reward coefficient, block time, previous timestamp, supply and maximum supply; minting is switched off only on the cap branch, where the amount is replaced by a value derived from max supply and supply; the keeper is wired with the fee-collector name; the block-mint amount is rounded in one way only; the block time enters the computation only as a timestamp or through Year(), and a hand-written leap predicate takes Year() modulo exactly {4,100,400}; (R3) while disabled EndBlocker forgets the last timestamp. The formula itself, the value of the rounding, the two year-length constants and the cap arithmetic are numeric and not decided.",
 		Assumptions: []string{"sdk.Dec arithmetic", "bank keeper mints/moves exactly the given coins"},
-		Declined:    []string{"the formula bonded × coefficient% × elapsed / year in 18-decimal fixed point, rounding to nearest", "leap-year year length", "never exceeding the cap as a numeric bound"},
+		Declined:    []string{"the formula bonded × coefficient% × elapsed / year in 18-decimal fixed point, rounding to nearest", "the value of the two year-length constants", "never exceeding the cap as a numeric bound"},
 	})
 }
 
